@@ -5,11 +5,15 @@ package main
 // It parses $repo/tscreen.go (+ tscreen_unix.go for initialize), screen.go and simulation.go with go/ast and,
 // for every public Screen entry point of the two implementations (tScreen and simscreen, both reached through
 // the baseScreen wrappers of screen.go) and for the library's own goroutines (mainLoop, inputLoop, the resize
-// callback), walks the body in program order tracking `x.Lock()/x.Unlock()/defer x.Unlock()` of the screen
-// mutex, inlining calls to methods of the same receiver (memo-free, bounded depth, recursion-guarded), and
-// emits one fact per field access:
+// callback), walks the body in program order tracking `x.Lock()/x.Unlock()/defer x.Unlock()` of EVERY mutex of the
+// receiver — the embedded `sync.Mutex` (the screen lock) and every named field of type sync.Mutex / sync.RWMutex
+// (`x.lifecycle.Lock()`; RLock is not tracked: a read lock excludes nobody) —, inlining calls to methods of the same
+// receiver (memo-free, bounded depth, recursion-guarded), and emits one fact per field access:
 //
-//	(impl, entry point, field, read|write, lock held?, phase, noloops)
+//	(impl, entry point, field, read|write, SET of mutexes held, phase, noloops)
+//
+// Mutexes are numbered globally (`mutex` lines of gen/lockfacts.txt, `mutexNames` in the Lean file); id 0 is the
+// embedded mutex of tScreen.  `held` (the screen lock of the fact's own implementation is in the set) is derived.
 //
 // phase  = init  for the constructor and for Init up to (not including) the call of engage — no other
 //	        goroutine can hold a reference yet (API contract: Init returns before the Screen is shared);
@@ -35,7 +39,8 @@ import (
 
 type lfFact struct {
 	impl, entry, field string
-	wr, held           bool
+	wr, held           bool // held: derived — the embedded (screen) mutex of the implementation is in `locks`
+	locks              uint // set of mutexes held, bit = global mutex id
 	conc               bool // concurrent phase
 	noloops            bool
 	line               int
@@ -50,6 +55,35 @@ type lfImpl struct {
 	methods map[string]*ast.FuncDecl
 	extra   []string // public methods outside the Screen interface that are entry points too
 	cells   string   // field GetCells returns the address of
+	mutexes []string // mutex fields of the struct: the embedded "Mutex" first, then named sync.Mutex fields
+	mbit    map[string]uint
+}
+
+// global numbering of the mutexes ("tscreen/Mutex", "tscreen/lifecycle", "sim/Mutex" …)
+var lfMutexNames []string
+
+func lfIsMutexType(t string) bool { return t == "sync.Mutex" || t == "sync.RWMutex" }
+
+func (im *lfImpl) embeddedBit() uint { return im.mbit["Mutex"] }
+
+func lfLockNames(mask uint) []string {
+	var out []string
+	for i, n := range lfMutexNames {
+		if mask&(1<<uint(i)) != 0 {
+			out = append(out, n[strings.Index(n, "/")+1:])
+		}
+	}
+	return out
+}
+
+func lfLockIds(mask uint) string {
+	var out []string
+	for i := range lfMutexNames {
+		if mask&(1<<uint(i)) != 0 {
+			out = append(out, fmt.Sprint(i))
+		}
+	}
+	return "[" + strings.Join(out, ", ") + "]"
 }
 
 var lfFset = token.NewFileSet()
@@ -125,14 +159,14 @@ type lfFrame struct {
 	recv     string            // receiver identifier in this body
 	base     bool              // body of a baseScreen method
 	alias    map[string]string // local identifier -> field it was loaded from
-	held     bool
-	deferUnl bool
+	held     uint              // set of mutexes held
+	deferUnl uint              // mutexes released by `defer x.Unlock()` when the body returns
 	deferred []*ast.FuncLit
 }
 
-func (w *lfWalker) emit(field string, wr bool, held bool, pos token.Pos) {
-	f := lfFact{impl: w.impl.name, entry: w.entry, field: field, wr: wr, held: held, conc: w.conc, noloops: w.noloops, line: lfFset.Position(pos).Line}
-	k := fmt.Sprintf("%s|%v|%v|%v|%v", field, wr, held, w.conc, w.noloops)
+func (w *lfWalker) emit(field string, wr bool, locks uint, pos token.Pos) {
+	f := lfFact{impl: w.impl.name, entry: w.entry, field: field, wr: wr, locks: locks, held: locks&w.impl.embeddedBit() != 0, conc: w.conc, noloops: w.noloops, line: lfFset.Position(pos).Line}
+	k := fmt.Sprintf("%s|%v|%v|%v|%v", field, wr, locks, w.conc, w.noloops)
 	if old, ok := w.facts[k]; !ok {
 		f.lines = []int{f.line}
 		w.facts[k] = f
@@ -209,9 +243,44 @@ func (w *lfWalker) finish(fr *lfFrame) {
 		w.block(fr, fr.deferred[i].Body.List)
 	}
 	fr.deferred = nil
-	if fr.deferUnl {
-		fr.held = false
-		fr.deferUnl = false
+	if fr.deferUnl != 0 {
+		fr.held &^= fr.deferUnl
+		fr.deferUnl = 0
+	}
+}
+
+// mutexOf: `recv` (the embedded mutex; baseScreen reaches the same one through screenImpl) or `recv.<mutex field>`
+func (w *lfWalker) mutexOf(fr *lfFrame, x ast.Expr) (uint, bool) {
+	switch v := x.(type) {
+	case *ast.Ident:
+		if v.Name == fr.recv && fr.recv != "" {
+			if b, ok := w.impl.mbit["Mutex"]; ok {
+				return b, true
+			}
+		}
+	case *ast.SelectorExpr:
+		if id, ok := v.X.(*ast.Ident); ok && id.Name == fr.recv && fr.recv != "" && !fr.base {
+			if b, ok := w.impl.mbit[v.Sel.Name]; ok {
+				return b, true
+			}
+		}
+	}
+	return 0, false
+}
+
+func (w *lfWalker) lockOp(fr *lfFrame, bit uint, m string, pos token.Pos) {
+	name := strings.Join(lfLockNames(bit), "")
+	switch m {
+	case "Lock":
+		if fr.held&bit != 0 {
+			lfWarnings = append(lfWarnings, fmt.Sprintf("%s/%s: Lock of %s while held at line %d", w.impl.name, w.entry, name, lfFset.Position(pos).Line))
+		}
+		fr.held |= bit
+	case "Unlock":
+		if fr.held&bit == 0 {
+			lfWarnings = append(lfWarnings, fmt.Sprintf("%s/%s: Unlock of %s while not held at line %d", w.impl.name, w.entry, name, lfFset.Position(pos).Line))
+		}
+		fr.held &^= bit
 	}
 }
 
@@ -258,20 +327,16 @@ func (w *lfWalker) call(fr *lfFrame, c *ast.CallExpr) {
 			w.arg(fr, a)
 		}
 	}
+	if m == "Lock" || m == "Unlock" {
+		if bit, ok := w.mutexOf(fr, sel.X); ok {
+			w.lockOp(fr, bit, m, c.Pos())
+			return
+		}
+	}
 	if id, ok := sel.X.(*ast.Ident); ok && id.Name == fr.recv {
 		// method of the receiver
-		switch m {
-		case "Lock":
-			if fr.held {
-				lfWarnings = append(lfWarnings, fmt.Sprintf("%s/%s: Lock while held at line %d", w.impl.name, w.entry, lfFset.Position(c.Pos()).Line))
-			}
-			fr.held = true
-			return
-		case "Unlock":
-			if !fr.held {
-				lfWarnings = append(lfWarnings, fmt.Sprintf("%s/%s: Unlock while not held at line %d", w.impl.name, w.entry, lfFset.Position(c.Pos()).Line))
-			}
-			fr.held = false
+		if m == "Lock" || m == "Unlock" {
+			lfWarnings = append(lfWarnings, fmt.Sprintf("%s/%s: %s on a receiver without an embedded mutex at line %d", w.impl.name, w.entry, m, lfFset.Position(c.Pos()).Line))
 			return
 		}
 		args()
@@ -289,9 +354,7 @@ func (w *lfWalker) call(fr *lfFrame, c *ast.CallExpr) {
 			w.emit(m, false, fr.held, c.Pos())
 			return
 		}
-		if m != "Lock" && m != "Unlock" {
-			lfWarnings = append(lfWarnings, fmt.Sprintf("%s/%s: unresolved receiver method %s", w.impl.name, w.entry, m))
-		}
+		lfWarnings = append(lfWarnings, fmt.Sprintf("%s/%s: unresolved receiver method %s", w.impl.name, w.entry, m))
 		return
 	}
 	// method call on a field (or alias of a field) of the receiver
@@ -501,7 +564,7 @@ func (w *lfWalker) block(fr *lfFrame, list []ast.Stmt) bool {
 // branches walks alternative bodies from the same lock state and joins the states of those that fall through
 func (w *lfWalker) branches(fr *lfFrame, bodies [][]ast.Stmt, exhaustive bool, pos token.Pos) bool {
 	h0, nl0 := fr.held, w.noloops
-	var outs []bool
+	var outs []uint
 	allTerm := true
 	nl := nl0
 	for _, b := range bodies {
@@ -526,7 +589,7 @@ func (w *lfWalker) branches(fr *lfFrame, bodies [][]ast.Stmt, exhaustive bool, p
 	for _, o := range outs[1:] {
 		if o != fr.held {
 			lfWarnings = append(lfWarnings, fmt.Sprintf("%s/%s: lock state differs between branches at line %d", w.impl.name, w.entry, lfFset.Position(pos).Line))
-			fr.held = false
+			fr.held &= o // conservative: only what every branch holds
 		}
 	}
 	return false
@@ -613,9 +676,11 @@ func (w *lfWalker) stmt(fr *lfFrame, s ast.Stmt) bool {
 		}
 	case *ast.DeferStmt:
 		if sel, ok := v.Call.Fun.(*ast.SelectorExpr); ok {
-			if id, ok := sel.X.(*ast.Ident); ok && id.Name == fr.recv && sel.Sel.Name == "Unlock" {
-				fr.deferUnl = true
-				return false
+			if sel.Sel.Name == "Unlock" {
+				if bit, ok := w.mutexOf(fr, sel.X); ok {
+					fr.deferUnl |= bit
+					return false
+				}
 			}
 		}
 		if fl, ok := v.Call.Fun.(*ast.FuncLit); ok {
@@ -772,6 +837,31 @@ func lfParse(repo string) (impls []*lfImpl) {
 			}
 		}
 	}
+	// mutexes: the embedded one first, then the named ones in declaration order; numbered globally
+	lfMutexNames = nil
+	for _, im := range []*lfImpl{ts, ss} {
+		im.mbit = map[string]uint{}
+		var named []string
+		for _, f := range im.fields {
+			if !lfIsMutexType(im.ftype[f]) {
+				continue
+			}
+			if f == "Mutex" || f == "RWMutex" {
+				im.mutexes = append([]string{f}, im.mutexes...)
+			} else {
+				named = append(named, f)
+			}
+		}
+		im.mutexes = append(im.mutexes, named...)
+		for _, m := range im.mutexes {
+			key := m
+			if m == "RWMutex" {
+				key = "Mutex"
+			}
+			im.mbit[key] = 1 << uint(len(lfMutexNames))
+			lfMutexNames = append(lfMutexNames, im.name+"/"+m)
+		}
+	}
 	// pseudo-fields
 	for _, im := range []*lfImpl{ts, ss} {
 		for _, pf := range []string{"tty.out", "encoder.state", "decoder.state", "wg.state"} {
@@ -894,7 +984,7 @@ func genLockFacts() {
 							for _, el := range cl.Elts {
 								if kv, ok := el.(*ast.KeyValueExpr); ok {
 									if k, ok := kv.Key.(*ast.Ident); ok {
-										w.emit(k.Name, true, false, kv.Pos())
+										w.emit(k.Name, true, 0, kv.Pos())
 									}
 								}
 							}
@@ -921,8 +1011,8 @@ func genLockFacts() {
 					w.finish(fr)
 				}
 			}
-			if fr.held {
-				lfWarnings = append(lfWarnings, fmt.Sprintf("%s/%s: returns holding the lock", im.name, e.name))
+			if fr.held != 0 {
+				lfWarnings = append(lfWarnings, fmt.Sprintf("%s/%s: returns holding %s", im.name, e.name, strings.Join(lfLockNames(fr.held), ",")))
 			}
 			for _, k := range w.order {
 				all = append(all, w.facts[k])
@@ -988,6 +1078,45 @@ func genLockFacts() {
 		return 0
 	}
 
+	// guard of a field (mirrors Lockset.blameGuard): the lowest-numbered mutex held at EVERY concurrent-phase access;
+	// when there is none, the lowest-numbered mutex held at some access (the others get the blame), else 0
+	guardOf := func(im *lfImpl, field string) int {
+		var masks []uint
+		for _, f := range all {
+			if f.impl == im.name && f.field == field && f.conc {
+				masks = append(masks, f.locks)
+			}
+		}
+		for m := range lfMutexNames {
+			okAll := true
+			for _, k := range masks {
+				if k&(1<<uint(m)) == 0 {
+					okAll = false
+				}
+			}
+			if okAll {
+				return m
+			}
+		}
+		for m := range lfMutexNames {
+			for _, k := range masks {
+				if k&(1<<uint(m)) != 0 {
+					return m
+				}
+			}
+		}
+		return 0
+	}
+	hasCommon := func(im *lfImpl, field string) bool {
+		g := guardOf(im, field)
+		for _, f := range all {
+			if f.impl == im.name && f.field == field && f.conc && f.locks&(1<<uint(g)) == 0 {
+				return false
+			}
+		}
+		return true
+	}
+
 	// ---- numbering -----------------------------------------------------------------------------------------
 	var lb strings.Builder
 	lb.WriteString("-- GENERATED by harness/cmd/extract/lockfacts.go from tscreen.go, screen.go, simulation.go; do not edit.\n")
@@ -995,7 +1124,7 @@ func genLockFacts() {
 	entryId := map[string]int{}
 	fieldId := map[string]int{}
 	var entryNames, fieldNames []string
-	var fieldClass []int
+	var fieldClass, fieldGuard []int
 	entryKind := []int{}
 	for _, im := range impls {
 		for _, e := range entriesOf[im.name] {
@@ -1016,7 +1145,11 @@ func genLockFacts() {
 			fieldId[im.name+"/"+f] = len(fieldNames)
 			fieldNames = append(fieldNames, im.name+"/"+f)
 			fieldClass = append(fieldClass, classOf(im, f))
+			fieldGuard = append(fieldGuard, guardOf(im, f))
 		}
+	}
+	for i, n := range lfMutexNames {
+		fmt.Fprintf(&txt, "mutex %d %s %s\n", i, n[:strings.Index(n, "/")], n[strings.Index(n, "/")+1:])
 	}
 	cname := []string{"guarded", "init-only", "sync", "confined"}
 	for _, im := range impls {
@@ -1030,7 +1163,15 @@ func genLockFacts() {
 			if touched[fkey{im.name, f}] {
 				t = "touched"
 			}
-			fmt.Fprintf(&txt, "field %s %s %s %s type=%s\n", im.name, f, cname[classOf(im, f)], t, strings.ReplaceAll(im.ftype[f], " ", "_"))
+			g := "-"
+			if classOf(im, f) == 0 {
+				g = lfMutexNames[guardOf(im, f)]
+				g = g[strings.Index(g, "/")+1:]
+				if !hasCommon(im, f) {
+					g = "!" + g // the lock sets of the accesses have no common mutex: accesses not holding this one are flagged
+				}
+			}
+			fmt.Fprintf(&txt, "field %s %s %s %s type=%s guard=%s\n", im.name, f, cname[classOf(im, f)], t, strings.ReplaceAll(im.ftype[f], " ", "_"), g)
 		}
 	}
 	b2 := func(b bool) string {
@@ -1066,6 +1207,21 @@ func genLockFacts() {
 		}
 		fmt.Fprintf(&lb, "%d", c)
 	}
+	lb.WriteString("]\n\n/-- the mutexes of the screen types, numbered: the embedded `sync.Mutex` (the screen lock) and every named sync.Mutex field -/\ndef mutexNames : List String := [")
+	for i, n := range lfMutexNames {
+		if i > 0 {
+			lb.WriteString(", ")
+		}
+		fmt.Fprintf(&lb, "%q", n)
+	}
+	fmt.Fprintf(&lb, "]\n\ndef nMutexes : Nat := %d\n", len(lfMutexNames))
+	lb.WriteString("\n/-- for every field id the mutex its accesses are judged against (`Lockset.blameGuard`); `Props.C10.guards_exact` re-derives it -/\ndef guards : List Nat := [")
+	for i, g := range fieldGuard {
+		if i > 0 {
+			lb.WriteString(", ")
+		}
+		fmt.Fprintf(&lb, "%d", g)
+	}
 	lb.WriteString("]\n\n/-- ids of the fields whose declared type is a synchronisation primitive (sync.Mutex, sync.Once, sync.WaitGroup) or the embedded Screen -/\ndef syncFields : List Nat := [")
 	first := true
 	for i, c := range fieldClass {
@@ -1096,7 +1252,7 @@ func genLockFacts() {
 		}
 		fmt.Fprintf(&lb, "%d", c)
 	}
-	lb.WriteString("]\n\n/-- (entry, field, write?, lock held?, concurrent phase?, after wg.Wait?) -/\ndef facts : List Fact := [\n")
+	lb.WriteString("]\n\n/-- (entry, field, write?, ids of the mutexes held, concurrent phase?, after wg.Wait?) -/\ndef facts : List Fact := [\n")
 	var flagged []lfFact
 	implByName := map[string]*lfImpl{}
 	for _, im := range impls {
@@ -1108,7 +1264,7 @@ func genLockFacts() {
 			sep = ""
 		}
 		fmt.Fprintf(&lb, "  ⟨%d, %d, %s, %s, %s, %s⟩%s -- %s %s %s line %d\n", entryId[f.impl+"/"+f.entry], fieldId[f.impl+"/"+f.field],
-			b2(f.wr), b2(f.held), b2(f.conc), b2(f.noloops), sep, f.impl+"/"+f.entry, rw(f.wr), f.field, f.line)
+			b2(f.wr), lfLockIds(f.locks), b2(f.conc), b2(f.noloops), sep, f.impl+"/"+f.entry, rw(f.wr), f.field, f.line)
 		ph := "init"
 		if f.conc {
 			ph = "conc"
@@ -1125,8 +1281,12 @@ func genLockFacts() {
 		for i, l := range f.lines {
 			ls[i] = fmt.Sprint(l)
 		}
-		fmt.Fprintf(&txt, "fact %s %s %s %s %s %s lines=%s%s\n", f.impl, f.entry, f.field, rw(f.wr), g, ph, strings.Join(ls, ","), nl)
-		if f.conc && !f.held && classOf(implByName[f.impl], f.field) == 0 {
+		lk := strings.Join(lfLockNames(f.locks), ",")
+		if lk == "" {
+			lk = "-"
+		}
+		fmt.Fprintf(&txt, "fact %s %s %s %s %s %s lines=%s locks=%s%s\n", f.impl, f.entry, f.field, rw(f.wr), g, ph, strings.Join(ls, ","), lk, nl)
+		if f.conc && classOf(implByName[f.impl], f.field) == 0 && f.locks&(1<<uint(fieldGuard[fieldId[f.impl+"/"+f.field]])) == 0 {
 			flagged = append(flagged, f)
 		}
 	}
@@ -1137,12 +1297,17 @@ func genLockFacts() {
 			sep = ""
 		}
 		fmt.Fprintf(&lb, "  ⟨%d, %d, %s, %s, %s, %s⟩%s -- %s %s %s line %d\n", entryId[f.impl+"/"+f.entry], fieldId[f.impl+"/"+f.field],
-			b2(f.wr), b2(f.held), b2(f.conc), b2(f.noloops), sep, f.impl+"/"+f.entry, rw(f.wr), f.field, f.line)
+			b2(f.wr), lfLockIds(f.locks), b2(f.conc), b2(f.noloops), sep, f.impl+"/"+f.entry, rw(f.wr), f.field, f.line)
 		nl := ""
 		if f.noloops {
 			nl = " noloops"
 		}
-		fmt.Fprintf(&txt, "flagged %s %s %s %s line=%d%s\n", f.impl, f.entry, f.field, rw(f.wr), f.line, nl)
+		lk := strings.Join(lfLockNames(f.locks), ",")
+		if lk == "" {
+			lk = "-"
+		}
+		gn := lfMutexNames[fieldGuard[fieldId[f.impl+"/"+f.field]]]
+		fmt.Fprintf(&txt, "flagged %s %s %s %s line=%d locks=%s guard=%s%s\n", f.impl, f.entry, f.field, rw(f.wr), f.line, lk, gn[strings.Index(gn, "/")+1:], nl)
 	}
 	lb.WriteString("]\n\n")
 	// draw shape (show_block_contiguous): see lfDrawShape
